@@ -9,7 +9,10 @@ run (`Extracted/PyEvMain.lean`: `__init__`, `_create`, `_SO_finishCreate` + its 
 `_init`, `_SO_setValue`, `set`, `syncUpdate`, the signal frame of `destroySelf`) on the image `absW` of a state of
 the hand model (`Model/Events.lean`); `absUnit` / `absNew` read the end of a run back as the model's
 `(State, log, Out)`.  `Lemmas/EvMainX*.lean` prove `absUnit … (<method>X …) = some (op<Method> …)` for ALL states,
-listener lists and inputs.
+listener lists and inputs: `setX_eq` (`opSet`), `setValueX_eq` (`opAssign`), `syncUpdateX_eq`, `destroySelfX_eq`, and
+`initX_eq` (`absNew … (initX (f+2) (createX (f+2)) …) = some (opCreate …)`: the whole constructor path; it needs a class
+with at least one column — `_init` reads the row back and treats an empty result as missing — and a next id that is not
+in the table).
 
 ## The assumed interface (everything the translated code calls in OTHER objects is a parameter: `evOps`, `…Calls`)
 * `self.sqlmeta.send(sig, self, kwargs, post_funcs)` IS the translated `sqlmeta.send` of `Model/EventsX.lean`
